@@ -149,7 +149,7 @@ def rule_insert_remove(ctx, prog, eff):
         if t[0] == 'agg' and t[2] == 'Ok':
             e = {}
             shape = match(AGG("Result", "Ok", TUP(AGG(MM, None, V("vec")), C("Vec::remove", V("vec"), V("idx")))), t, e)
-            facts = outcomes.facts_of(b, o)
+            facts = outcomes.facts_of(b, o, (prog, eff))
             search_ok = False
             size_ok = False
             if shape:
